@@ -27,8 +27,16 @@ pub struct MDBInMemoryShard {
 impl MDBInMemoryShard {
     pub fn add_cas_block(&mut self, cas_block_contents: MDBCASInfo) -> Result<()> {
         let dest_content_v = Arc::new(cas_block_contents);
-        self.cas_content
-            .insert(dest_content_v.metadata.cas_hash, dest_content_v.clone());
+        if let Some(replaced) = self
+            .cas_content
+            .insert(dest_content_v.metadata.cas_hash, dest_content_v.clone())
+        {
+            // Re-adding a block that is already present replaces it in the serialized
+            // shard, so its previous contribution must not be counted twice.
+            self.current_shard_file_size -= replaced.num_bytes()
+                + (size_of::<u64>() + size_of::<u32>()) as u64
+                + (replaced.chunks.len() * (size_of::<u64>() + 2 * size_of::<u32>())) as u64;
+        }
 
         for (i, chunk) in dest_content_v.chunks.iter().enumerate() {
             self.chunk_hash_lookup
@@ -45,7 +53,10 @@ impl MDBInMemoryShard {
         self.current_shard_file_size += file_info.num_bytes();
         self.current_shard_file_size += (size_of::<u64>() + size_of::<u32>()) as u64;
 
-        self.file_content.insert(file_info.metadata.file_hash, file_info);
+        if let Some(replaced) = self.file_content.insert(file_info.metadata.file_hash, file_info) {
+            // Likewise, a replaced file entry is serialized only once.
+            self.current_shard_file_size -= replaced.num_bytes() + (size_of::<u64>() + size_of::<u32>()) as u64;
+        }
 
         Ok(())
     }
@@ -90,14 +101,16 @@ impl MDBInMemoryShard {
 
             // The cas lookup table
             num_bytes += (size_of::<u64>() + size_of::<u32>()) as u64;
+
+            // The chunk lookup table has one row per chunk entry, including
+            // chunks whose hash also occurs elsewhere in the shard.
+            num_bytes += ((size_of::<u64>() + 2 * size_of::<u32>()) * cas_block_contents.chunks.len()) as u64;
         }
 
         for (_, file_info) in self.file_content.iter() {
             num_bytes += file_info.num_bytes();
             num_bytes += (size_of::<u64>() + size_of::<u32>()) as u64;
         }
-
-        num_bytes += ((size_of::<u64>() + 2 * size_of::<u32>()) * self.chunk_hash_lookup.len()) as u64;
 
         self.current_shard_file_size = num_bytes;
     }
